@@ -344,7 +344,13 @@ def run(ctx, ck):
         first = None
         for ev in p_.events:
             if ev[0] == 'store' and ev[1] == 'self.segments':
-                first = first or ('reset' if norm(ev[2]) in ('[]', 'list()') else 'store %s' % norm(ev[2])[:30])
+                if isinstance(ev[2], ast.List) and ev[2].elts:
+                    # the list is assigned as a whole, freshly built (a comprehension over the segment ends): reset and
+                    # fill in one statement
+                    first = first or 'reset'
+                    n_app += 1
+                else:
+                    first = first or ('reset' if norm(ev[2]) in ('[]', 'list()') else 'store %s' % norm(ev[2])[:30])
             elif ev[0] == 'call' and isinstance(ev[1].func, ast.Attribute) and norm(ev[1].func.value) == 'self.segments':
                 first = first or ev[1].func.attr
                 if ev[1].func.attr in ('append', 'extend', 'insert'):
@@ -460,6 +466,9 @@ def run(ctx, ck):
                 if ev[0] == 'call' and isinstance(ev[1], ast.Call) and isinstance(ev[1].func, ast.Attribute) and \
                    ev[1].func.attr in ('append', 'extend') and norm(ev[1].func.value) == 'self.segments':
                     apps += sum(1 for x_ in ast.walk(ev[1]) if isinstance(x_, ast.Name) and x_.id == tok)
+                elif ev[0] == 'store' and ev[1] == 'self.segments' and isinstance(ev[2], ast.List):
+                    # the list assigned as a whole: each created segment is an entry of it
+                    apps += sum(1 for x_ in ast.walk(ev[2]) if isinstance(x_, ast.Name) and x_.id == tok)
             if apps != 1:
                 bad = bad or 'the segment is appended %d times' % apps
             ends = [re.sub(r'_k\d+', '_k', norm(a_)) for a_ in call.args[:2]]
@@ -528,8 +537,32 @@ def run(ctx, ck):
     ck.ob('R-SIB.taper-mirror', 'taper.taper1|mirror', ok, t1.loc(),
           why or 'end != 0: reversed taper1(p2, p1, ..., 0) with swapped pairs')
     g = m.func('mininec.Wire.compute_taper1_segments')
-    ok = any('end=self.segtype - 1' in norm(s) for s in g.body())
-    ck.ob('R-SIB.taper-mirror', g.qual + '|end=segtype-1', ok, g.loc(), 'taper end passed as segtype - 1')
+    # on every path of the symbolic walk (helpers, keyword bundles looked through) taper1 is called with end = segtype - 1
+    from ..symx import SymExec
+    sxg = SymExec(ctx, g, bind_loops=True, effects=True, depth=3, max_paths=2000)
+    sxg.self_cls = 'Wire'
+    ends_ = set()
+    for p_ in sxg.run():
+        if p_.end == 'raise':
+            continue
+        exprs_ = [ev[1] for ev in p_.events if ev[0] == 'call']
+        for t_, b_ in p_.conds:
+            if t_ in ('loop', 'loop-skipped') and isinstance(b_, str) and 'taper1(' in b_:
+                try:
+                    exprs_.append(ast.parse(b_, mode='eval').body)
+                except SyntaxError:
+                    pass
+        calls_ = [x_ for e_ in exprs_ for x_ in ast.walk(e_)
+                  if isinstance(x_, ast.Call) and isinstance(x_.func, ast.Name) and x_.func.id == 'taper1']
+        if not calls_:
+            ends_.add('<no call of taper1>')
+        for c_ in calls_:
+            kw_ = {k_.arg: k_.value for k_ in c_.keywords}
+            e_ = kw_.get('end', c_.args[6] if len(c_.args) > 6 else None)
+            ends_.add(norm(e_) if e_ is not None else '<end not given>')
+    ok = ends_ == {'self.segtype - 1'}
+    ck.ob('R-SIB.taper-mirror', g.qual + '|end=segtype-1', ok, g.loc(),
+          'taper end passed as segtype - 1' if ok else 'taper1 is called with end = %s' % sorted(ends_))
 
     # ---------------------------------------------------------------- D3
     n = 0
